@@ -155,6 +155,8 @@ func c12Operand(k, n int, v *big.Int, form int) *c12Expr {
 
 type c12Outcome struct {
 	kind  int // 0 value, 1 compile error, 2 panic
+	vals  []*big.Int // all results
+	names []*big.Int // integer constant names ("$<decimal>") read by SSA instructions, in order
 	val   *big.Int
 	class int
 	text  string
@@ -199,7 +201,11 @@ var c12PanicClasses = []struct {
 }
 
 // c12Run compiles and evaluates one program with the real compiler.
-func c12Run(src string, inputs []*big.Int) (out c12Outcome) {
+func c12Run(src string, inputs []*big.Int) c12Outcome { return c12RunN(src, inputs, 1) }
+
+// c12RunN compiles and evaluates one program with want results; it also
+// collects the names of the integer constants the SSA instructions read.
+func c12RunN(src string, inputs []*big.Int, want int) (out c12Outcome) {
 	defer func() {
 		if r := recover(); r != nil {
 			msg := fmt.Sprint(r)
@@ -229,9 +235,18 @@ func c12Run(src string, inputs []*big.Int) (out c12Outcome) {
 		return fail(err)
 	}
 	nOps := 0
+	var names []*big.Int
 	for _, st := range prog.Steps {
 		if c12OpInstr.MatchString(st.Instr.Op.String()) {
 			nOps++
+		}
+		for _, in := range st.Instr.In {
+			if !in.Const || !strings.HasPrefix(in.Name, "$") {
+				continue
+			}
+			if v, ok := new(big.Int).SetString(in.Name[1:], 10); ok {
+				names = append(names, v)
+			}
 		}
 	}
 	circ, err := prog.CompileCircuit(params)
@@ -246,10 +261,10 @@ func c12Run(src string, inputs []*big.Int) (out c12Outcome) {
 		o.nOps = nOps
 		return o
 	}
-	if len(res) != 1 {
+	if len(res) != want {
 		return c12Outcome{kind: 1, class: 9, text: fmt.Sprintf("%d results", len(res)), nOps: nOps}
 	}
-	return c12Outcome{kind: 0, val: res[0], nOps: nOps}
+	return c12Outcome{kind: 0, val: res[0], vals: res, names: names, nOps: nOps}
 }
 
 // c12Program renders "package main / func main(a, b T[, c T]) R { return E }".
@@ -863,6 +878,7 @@ func runC12(c *Ctx) error {
 			doPair(c12OpNames[op], "uint", mix[0], func(*big.Int) string { return cls }, "asis", ec, ed, rk, rn, 1, c12NoMeta())
 		}
 	}
+	runC12Multi(c)
 	c.Note("programs compiled: %d; constant variants with the operator folded away: %d, not folded: %d", nPrograms, nFolded, nNotFolded)
 	return nil
 }
